@@ -315,9 +315,14 @@ struct Case {
 struct Ctx<'a> {
     report: &'a mut Report,
     model: Model,
+    /// explored cases (hash of the non-triviality key), folded into the main report at the end
+    keys: Vec<Option<u64>>,
 }
 
 impl<'a> Ctx<'a> {
+    fn case(&mut self, key: Option<String>) {
+        self.keys.push(key.map(|k| crate::report::hash_of(&k)));
+    }
     fn violation(&mut self, kind: &str, check: &str, what: String, input: Value, found: bool) {
         self.report.violation(Violation {
             kind: kind.to_owned(),
@@ -426,7 +431,7 @@ impl<'a> Ctx<'a> {
             }
         }
         let nontrivial = case.real.data.size() > 1;
-        self.report.case(if nontrivial { Some(key) } else { None });
+        self.case(if nontrivial { Some(key) } else { None });
     }
 
     /// oracle for values that do not come from a document: evaluate the text, compare with the
@@ -528,7 +533,7 @@ fn doc_case(ctx: &mut Ctx, fmt: Fmt, text: &str, intent: Option<P>, tag: &str) {
                 eprintln!("REJECTED {} {:?}: {}", fmt.name(), text, e);
             }
             ctx.report.hist("rejected_by_format_parser", &format!("{}: {}", fmt.name(), e.split(" at ").next().unwrap_or("?").chars().take(60).collect::<String>()));
-            ctx.report.case::<String>(None);
+            ctx.case(None);
         }
         Parsed::Failed(e) => {
             let input = json!({"kind": tag, "format": fmt.name(), "text": text});
@@ -560,6 +565,118 @@ fn serde_case(ctx: &mut Ctx, s: &S) {
         }
         Parsed::Rejected(_) => {}
     }
+}
+
+
+// ---------------------------------------------------------------------------------------
+// bundled `require` of a data file through the real `darklua_core::process`
+
+fn find_mod_impl(block: &darklua_core::nodes::Block) -> Option<&darklua_core::nodes::Expression> {
+    use darklua_core::nodes::{LastStatement, Statement};
+    for st in block.iter_statements() {
+        match st {
+            Statement::Do(d) => {
+                if let Some(e) = find_mod_impl(d.get_block()) {
+                    return Some(e);
+                }
+            }
+            Statement::LocalFunction(f) if f.get_name() == "__modImpl" => {
+                if let Some(LastStatement::Return(r)) = f.get_block().get_last_statement() {
+                    return r.iter_expressions().next();
+                }
+            }
+            _ => {}
+        }
+    }
+    None
+}
+
+/// `local value = require('./value.<ext>')` bundled with require mode `path`; returns the
+/// expression the bundle inlines for the data file, as a (loose) S-expression
+fn bundle_expr(ext: &str, content: &str) -> Result<String, String> {
+    let r = catch_unwind(AssertUnwindSafe(|| {
+        let resources = darklua_core::Resources::from_memory();
+        let w = |p: &str, c: &str| resources.write(p, c).map_err(|e| format!("{:?}", e));
+        w(".darklua.json", "{ \"rules\": [], \"generator\": \"dense\", \"bundle\": { \"require_mode\": \"path\" } }")?;
+        w(&format!("src/value.{}", ext), content)?;
+        w("src/main.lua", &format!("local value = require('./value.{}')", ext))?;
+        darklua_core::process(&resources, darklua_core::Options::new("src/main.lua").with_output("out.lua"))
+            .map_err(|e| e.to_string())?
+            .result()
+            .map_err(|errs| errs.iter().map(|e| e.to_string()).collect::<Vec<_>>().join("; "))?;
+        let out = resources.get("out.lua").map_err(|e| format!("{:?}", e))?;
+        let block = darklua_core::Parser::default().parse(&out).map_err(|e| format!("bundle output does not parse: {:?}", e))?;
+        let e = find_mod_impl(&block).ok_or_else(|| format!("no __modImpl in the bundle: {}", out))?;
+        let mut s = String::new();
+        lua::expr_sexp(e, false, &mut s);
+        Ok::<_, String>(s)
+    }));
+    match r {
+        Ok(x) => x,
+        Err(_) => Err("panic".to_owned()),
+    }
+}
+
+fn bundle_case(ctx: &mut Ctx, fmt: Fmt, text: &str) {
+    // what `convert` emits for the same document, re-read by the same parser
+    let real = match parse_and_convert(fmt, text) {
+        Parsed::Ok(r) => r,
+        _ => return,
+    };
+    let convert_expr = match darklua_core::Parser::default().parse(&real.text) {
+        Ok(block) => match block.get_last_statement() {
+            Some(darklua_core::nodes::LastStatement::Return(r)) => {
+                let mut s = String::new();
+                if let Some(e) = r.iter_expressions().next() {
+                    lua::expr_sexp(e, false, &mut s);
+                }
+                s
+            }
+            _ => return,
+        },
+        Err(_) => return,
+    };
+    let ext = match (fmt, text.len() % 2) {
+        (Fmt::Yaml, 0) => "yml",
+        (f, _) => f.name(),
+    };
+    ctx.report.hist("bundle", ext);
+    let input = json!({"kind": "bundle", "format": fmt.name(), "text": text, "extension": ext});
+    match bundle_expr(ext, text) {
+        Ok(b) if b == convert_expr => {
+            // the inlined expression is judged by the Lean reference semantics against the parsed data
+            if scope(&real.parsed).is_ok() {
+                let ans = ctx.model.ask(&format!("c14.eval {}", b));
+                match lean_val(&ans) {
+                    Ok(v) => {
+                        if let Err(e) = data_eq(&real.parsed, Some(&v), "$") {
+                            ctx.violation("oracle", "bundle-value-equals-parsed-data", e, input, true);
+                        }
+                    }
+                    Err(e) => ctx.violation("oracle", "bundle-value-evaluates", e, input, true),
+                }
+            }
+            ctx.report.count("bundle_checked", 1);
+        }
+        Ok(b) => {
+            let what = format!("bundle inlines {} but convert emits {}", clip(&b), clip(&convert_expr));
+            ctx.violation("oracle", "bundle-same-as-convert", what, input, true);
+        }
+        Err(e) => ctx.violation("oracle", "bundle-succeeds", e, input, true),
+    }
+    ctx.case(None);
+}
+
+fn txt_case(ctx: &mut Ctx, content: &str) {
+    ctx.report.hist("bundle", "txt");
+    let expected = format!("(str {})", crate::model::hex(content.as_bytes()));
+    let input = json!({"kind": "bundle", "format": "txt", "text": content});
+    match bundle_expr("txt", content) {
+        Ok(b) if b == expected => ctx.report.count("bundle_checked", 1),
+        Ok(b) => ctx.violation("oracle", "txt-is-the-file-content", format!("inlined {} expected {}", clip(&b), clip(&expected)), input, true),
+        Err(e) => ctx.violation("oracle", "bundle-succeeds", e, input, true),
+    }
+    ctx.case(Some(format!("txt:{}", content)));
 }
 
 fn replay_known(ctx: &mut Ctx) {
@@ -634,9 +751,13 @@ const FIXED_DOCS: [(&str, &str); 14] = [
 
 pub fn run(report: &mut Report, replay: Option<&str>) {
     report.rule = "documents: fixed corpus + per-format enumeration of every UTF-8 byte value/keyword as key and value + random nested documents (awkward keys, long strings, integers around 2^53..2^64, exponent forms, non-finite YAML/TOML numbers, nulls in arrays) rendered as JSON, JSON5, YAML, TOML; serde-level values reaching every serialize_* method. A case is non-trivial when the data has at least one container or wrapper; distinct = distinct (format, real expression).".to_owned();
-    let mut rng = Rng::new(report.seed);
-    let thorough = report.is_thorough();
-    let mut ctx = Ctx { report, model: Model::spawn() };
+    // decorrelate consecutive seeds (SplitMix streams of seeds s and s+1 are shifts of each other)
+    let mut rng = Rng::new(report.seed.wrapping_mul(0x2545F4914F6CDD1D) ^ 0xC14C14);
+    for _ in 0..(report.seed % 7) {
+        rng.next_u64();
+    }
+    let _thorough = report.is_thorough();
+    let mut ctx = Ctx { report, model: Model::spawn(), keys: Vec::new() };
 
     if let Some(path) = replay {
         if let Ok(text) = std::fs::read_to_string(path) {
@@ -669,37 +790,95 @@ pub fn run(report: &mut Report, replay: Option<&str>) {
     }
     enumerated(&mut ctx, &mut rng);
 
+    let requests = ctx.model.requests;
+    let keys = std::mem::take(&mut ctx.keys);
+    drop(ctx);
+    report.count("model_requests", requests);
+    for k in keys {
+        report.case(k);
+    }
+    // random phases on worker threads, one Lean driver each
+    let threads = 8usize;
+    let (tier, seed) = (report.tier.clone(), report.seed);
+    let handles: Vec<_> = (0..threads)
+        .map(|t| {
+            let tier = tier.clone();
+            let mut rng = rng.fork();
+            std::thread::spawn(move || {
+                let mut local = Report::new("C14", &tier, seed);
+                let keys = random_phases(&mut local, &mut rng, t, threads);
+                (local, keys)
+            })
+        })
+        .collect();
+    for h in handles {
+        let (local, keys) = h.join().expect("worker thread");
+        for k in keys {
+            report.case(k);
+        }
+        for (name, buckets) in local.histograms {
+            for (b, n) in buckets {
+                *report.histograms.entry(name.clone()).or_default().entry(b).or_default() += n;
+            }
+        }
+        for (name, n) in local.counters {
+            report.count(&name, n);
+        }
+        for v in local.violations {
+            report.violation(v);
+        }
+        for smp in local.samples {
+            report.sample(smp);
+        }
+    }
+}
+
+fn random_phases(report: &mut Report, rng: &mut Rng, thread: usize, threads: usize) -> Vec<Option<u64>> {
+    let thorough = report.is_thorough();
+    let mut ctx = Ctx { report, model: Model::spawn(), keys: Vec::new() };
+    let rng = &mut *rng;
     // random documents inside the hypothesis
-    let n_docs = if thorough { 60000 } else { 6000 };
+    let n_docs = (if thorough { 1600000 } else { 160000 }) / threads;
     for i in 0..n_docs {
         let fmt = [Fmt::Json, Fmt::Json5, Fmt::Yaml, Fmt::Toml][i % 4];
         let c = gen::caps(fmt);
-        let g = gen::gen_document(&mut rng, fmt, &c);
-        let text = gen::render(&g, fmt, &mut rng);
-        if i < 4 {
+        let g = gen::gen_document(rng, fmt, &c);
+        let text = gen::render(&g, fmt, rng);
+        if i < 4 && thread == 0 {
             ctx.report.sample(json!({"format": fmt.name(), "text": text}));
         }
         doc_case(&mut ctx, fmt, &text, Some(gen::g_to_p(&g)), "random");
+        if i % 8 < 4 {
+            bundle_case(&mut ctx, fmt, &text);
+        }
+    }
+    for (f, text) in FIXED_DOCS {
+        bundle_case(&mut ctx, Fmt::from_name(f).unwrap(), text);
+    }
+    for i in 0..(n_docs / 20) {
+        let content = if i == 0 { String::new() } else { gen::gen_string(rng) };
+        txt_case(&mut ctx, &content);
     }
     // YAML documents that may leave the hypothesis (null / NaN / colliding keys): classified only
-    let n_def = if thorough { 6000 } else { 600 };
+    let n_def = (if thorough { 160000 } else { 16000 }) / threads;
     let mut c = gen::caps(Fmt::Yaml);
     c.defective_keys = true;
     for _ in 0..n_def {
-        let g = gen::gen_document(&mut rng, Fmt::Yaml, &c);
-        let text = gen::render(&g, Fmt::Yaml, &mut rng);
+        let g = gen::gen_document(rng, Fmt::Yaml, &c);
+        let text = gen::render(&g, Fmt::Yaml, rng);
         doc_case(&mut ctx, Fmt::Yaml, &text, None, "random-yaml-any-keys");
     }
     // serde-level values
-    let n_serde = if thorough { 60000 } else { 6000 };
+    let n_serde = (if thorough { 1600000 } else { 160000 }) / threads;
     for i in 0..n_serde {
         let depth = 1 + rng.below(4);
-        let s = gen_s(&mut rng, depth, false);
-        if i < 2 {
+        let s = gen_s(rng, depth, false);
+        if i < 2 && thread == 0 {
             ctx.report.sample(json!({"serde": format!("{:?}", s)}));
         }
         serde_case(&mut ctx, &s);
     }
     let requests = ctx.model.requests;
     ctx.report.count("model_requests", requests);
+    std::mem::take(&mut ctx.keys)
 }
